@@ -73,6 +73,16 @@ class Opq(Val):
   def __init__(s,t,kind): s.t=t; s.kind=kind
   def __repr__(s): return f"Opq({s.kind}:{s.t})"
 
+class SuperV(Val):
+  __slots__=('selfv','parent')
+  def __init__(s,selfv,parent): s.selfv=selfv; s.parent=parent
+
+class ClsN(Val):
+  """a generated fixed-width subclass of `base` (BitsN): width n is a term."""
+  __slots__=('base','n')
+  def __init__(s,base,n): s.base=base; s.n=n
+  def __repr__(s): return f"ClsN({s.base},{s.n})"
+
 class Exc:
   """abrupt completion: exception of class cls (string)."""
   __slots__=('cls','note')
